@@ -134,9 +134,9 @@ def cases(tier, seed):
     rng = random.Random(10000 + seed)
     for h in CORPUS:
         yield {"ops": h}
-    n = 60 if tier == "quick" else 1200
+    n = 40 if tier == "quick" else 1200
     for _ in range(n):
-        yield {"ops": gen_history(rng, rng.randint(4, 8 if tier == "quick" else 12))}
+        yield {"ops": gen_history(rng, rng.randint(4, 7 if tier == "quick" else 12))}
 
 
 CORPUS = [
